@@ -258,8 +258,10 @@ CHECKS = {
             dict(name="drd_q_unknown_name_1", bounded="1 block, name byte 1 symbolic", what="same, name byte 1"),
             dict(name="drd_q_unknown_name_2", bounded="1 block, name byte 2 symbolic", what="same, name byte 2"),
             dict(name="drd_q_pointer_any", bounded="1 block, pointer any u32, 80-byte message", what="backwards / overlapping / out-of-range pointer: value or error"),
-            dict(name="drd_q_truncated_boundaries", bounded="cuts at 9 structural boundaries of a 48-byte message", termination="unwind 10; the unchanged decoder needs 9 iterations of the cut loop and <= 2 per inner loop", what="truncated type-31 message is an error and decoding ends"),
-            dict(name="drd_q_gates_short", bounded="gates in {5, 1840, 65535} x word 8/16, 4 data bytes present", termination="unwind 8", what="declared gate bytes beyond the input: error, never a hang or a panic"),
+            dict(name="drd_q_truncated_a", bounded="cuts at 0, 31, 32 of a 48-byte message", termination="unwind 5; the unchanged decoder needs <= 3 iterations per loop", what="truncated type-31 message is an error and decoding ends"),
+            dict(name="drd_q_truncated_b", bounded="cuts at 35, 36, 39", termination="unwind 5", what="same"),
+            dict(name="drd_q_truncated_c", bounded="cuts at 40, 47, 1", termination="unwind 5", what="same"),
+            dict(name="drd_q_gates_short", bounded="gates in {5, 1840, 65535} x word 8/16, 4 data bytes present", termination="unwind 5", what="declared gate bytes beyond the input: error, never a hang or a panic"),
             dict(name="drd_total_count_extreme", bounded="block count 65535, 40-byte input", what="huge block count with short input is an error"),
             dict(name="drd_total_name_byte0", bounded="<=2 blocks, 80-byte fully symbolic buffer, one symbolic name byte", tier="thorough", what="type-31 decode + radial conversion: value or error"),
             dict(name="drd_total_name_xyz", bounded="<=2 blocks, 80-byte fully symbolic buffer, name XYZ", tier="thorough", what="unknown block name is an error"),
